@@ -307,6 +307,11 @@ class Interp:
                     continue
                 base, idx = r.value
                 v = TOP
+                hook = getattr(d, "subscript", None)
+                hv = hook(base, idx, r.state, fr) if hook is not None else None
+                if hv is not None:
+                    out.append(val(hv, r.state))
+                    continue
                 if isinstance(base, tuple) and base and base[0] == "tuple" and isinstance(idx, tuple) and idx[0] == "const" and isinstance(idx[1], int) and -len(base) < idx[1] < len(base) - 1:
                     v = base[1 + idx[1]] if idx[1] >= 0 else base[idx[1]]
                 out.append(val(v, r.state))
